@@ -4,6 +4,10 @@ import ProductMD.Proofs.C05Images
 import ProductMD.Proofs.C05Rpms
 import ProductMD.Proofs.C05CI
 import ProductMD.Proofs.C05TreeInfo
+import ProductMD.Proofs.C05TreeInfoIdem
+import ProductMD.Proofs.C05WitnessTI
+import ProductMD.Proofs.C05WitnessTI03
+import ProductMD.Proofs.C05WitnessTI00
 import ProductMD.Properties.C03
 import ProductMD.Properties.C02
 import ProductMD.Properties.C09
@@ -266,36 +270,94 @@ theorem C05_ci_gates_at_boundaries :
 theorem C05_ci_extends_C01 (doc : PyVal) (ci : ComposeInfo) (h : CI.deserialize doc = .ok ci) :
     Legacy.deserialize doc = .ok ci := Legacy.deserialize_of_deserialize doc ci h
 
-/-- **loaded is normal (partial: sections and key structure)** — whatever version the document had: the compose and
-release sections validate, and every variant container (top level and below every variant, at any depth; explicit
-child lists and UID-prefix scan alike) is keyed by id with no key twice — the hypothesis `WellKeyed` of C01.
-Not proved here: that every *variant* validates against its parent (the reader runs that validator, the statement needs
-the forest invariant of C11), and the sort order of children (document order for the prefix scan; the writer sorts). -/
+/-- **loaded is normal (partial: validity and key structure; `Normal` of C01 is false of the code)** — whatever version the
+document had, at any depth, for explicit child lists and for the UID-prefix forest below 1.0 alike:
+* the compose and release sections validate; a layered release has a base product that validates, a non-layered one none;
+* every variant passes the generated `Variant` validators AGAINST ITS PARENT (`ValidVs`: id syntax, UID aligned with the
+  parent's UID — with the id at top level —, name, type, arches non-empty and within the parent's, container keys), and the
+  release of a layered-product variant validates;
+* every container is keyed by id with no key twice (`WellKeyed`, the hypothesis of C01).
+The header is not part of the typed object: the writer always emits the current version (C01).
+Full statement (DESIGN): `… → Valid x ∧ Normal x`.  `Normal` (C01: `final` only with a label, children in sorted order) does
+NOT hold of what the reader returns — `final` is kept without a label until the first write, children of the prefix scan
+come in document order: `C05_ci_loaded_not_normal_witness`; both are settled by the first write (`C05_ci_idempotent`).
+The boundary of the prefix forest is F32 (depth ≥ 3 refused: `C05_ci_legacy_depth3_refused_witness`). -/
 theorem C05_ci_loaded_is_normal_partial (doc : PyVal) (ci : ComposeInfo) (h : Legacy.deserialize doc = .ok ci) :
     validateClass "composeinfo.Compose" (composeObj ci.compose) = .ok ()
     ∧ validateClass "composeinfo.Release" (releaseObj ci.release) = .ok ()
+    ∧ (ci.release.isLayered = true → ∃ b, ci.base = some b ∧ validateClass "composeinfo.BaseProduct" (baseObj (some b)) = .ok ())
+    ∧ (ci.release.isLayered = false → ci.base = none)
+    ∧ Legacy.ValidVs none ci.variants
     ∧ WellKeyed ci :=
   ⟨(Legacy.deserialize_sections_valid doc ci h).1, (Legacy.deserialize_sections_valid doc ci h).2,
-   Legacy.deserialize_wellKeyed doc ci h⟩
+   (Legacy.deserialize_forest_valid doc ci h).2.1, (Legacy.deserialize_forest_valid doc ci h).2.2,
+   (Legacy.deserialize_forest_valid doc ci h).1, Legacy.deserialize_wellKeyed doc ci h⟩
 
 /--
-**idempotent (partial: hypothesis "the writer accepts it").**  A compose description loaded from a document of any
-version, once the current writer has written it as document `j`: the *current* reader (`CI.deserialize`, no legacy
-branch: conversion happens exactly once) — and therefore also the legacy-aware one — reads `j` back as the normal form of
-the loaded object (children in sorted order, nothing else changes: `C01_norm_*`), and writing that again gives the very
-same document.  No hypothesis on UIDs is needed: the loaded object is well keyed (`C05_ci_loaded_is_normal_partial`) and a
-successful write of a well-keyed forest implies distinct UIDs (C01).
+**idempotent.**  A compose description loaded from a document of any version, once the current writer has written it as
+document `j` (`hs`: the dump succeeded): the *current* reader (`CI.deserialize`, no legacy branch: conversion happens exactly
+once) — and therefore also the legacy-aware one — reads `j` back as the normal form of the loaded object (children in sorted
+order, `final` only with a label; nothing else changes: `C01_norm_*`), and writing that again gives the very same document.
+Nothing but the load and the successful dump is assumed: the loaded object is well keyed (`C05_ci_loaded_is_normal_partial`)
+and a successful write of a well-keyed forest has distinct UIDs (`C01_written_uids_distinct`).
 -/
-theorem C05_ci_idempotent_partial (doc j : PyVal) (x : ComposeInfo) (h : Legacy.deserialize doc = .ok x)
+theorem C05_ci_idempotent (doc j : PyVal) (x : ComposeInfo) (h : Legacy.deserialize doc = .ok x)
     (hs : serialize x = .ok j) :
     CI.deserialize j = .ok x.norm ∧ Legacy.deserialize j = .ok x.norm ∧ serialize x.norm = .ok j := by
   have hk := Legacy.deserialize_wellKeyed doc x h
   have h1 := C01_readback x j hk hs
   exact ⟨h1, Legacy.deserialize_of_deserialize j _ h1, C01_fixpoint x j hk hs⟩
 
+/-- through the text as well: with `parse` standing for `json.load` (inverting the printer on the written document is the
+explicit hypothesis of C01_bytes), the text of the first dump is re-loaded and dumped to the same text -/
+theorem C05_ci_idempotent_bytes (parse : Str → Except Err PyVal) (doc : PyVal) (x : ComposeInfo) (t : Str)
+    (h : Legacy.deserialize doc = .ok x)
+    (hjson : ∀ j, serialize x = .ok j → parse (JsonText.dumps j) = .ok j) (hd : dumps x = .ok t) :
+    reloadDump parse t = .ok t :=
+  C01_bytes parse x t (Legacy.deserialize_wellKeyed doc x h) hjson hd
+
 /-- **faithful, `product` section (≤ 0.3)**: what is read has `internal = False`, whatever the section says -/
 theorem C05_ci_faithful_product_not_internal (holder : PyVal) (r : Release) (h : Legacy.releaseDe03 holder = .ok r) :
     r.internal = false := (Legacy.releaseDe03_valid holder r h).2
+
+/-- **faithful, forest below 1.0 — top level** (any number of variants, any depth): detecting the top level from UID prefixes
+(`rsplit("-", 1)` head not a key) selects exactly the keys the explicit child lists leave unreferenced, *iff-condition*
+stated on the table: a key is referenced as a child exactly when the part before its last dash is a key.  (Violated by a
+dashed top-level UID beside its prefix — not expressible by prefixes; the acceptance mutant `< (1,0)` → `<= (1,0)` lives there.) -/
+theorem C05_ci_faithful_tops (keys cs : List Str)
+    (h : ∀ u ∈ keys, cs.contains u = true ↔ ∃ hd, Legacy.legacyHead u = some hd ∧ keys.contains hd = true) :
+    keys.filter (Legacy.isLegacyTop keys) = keys.filter (fun u => !cs.contains u) :=
+  Legacy.tops_legacy_eq keys cs h
+
+/-- **faithful, forest below 1.0 — children** (any number of children): for an entry whose `variants` list was removed by the
+down-conversion, the legacy reader (gate `< (1, 0)`) looks its children up under exactly the keys, in exactly the order, the
+current reader uses for the entry with the list — given a table in sorted key order (what `sort_keys=True` writes), every
+listed child present, and nothing else under the prefix `uid-`.  The last condition is what fails from depth 3 on (a
+grandchild `uid-c-g` also starts with `uid-`): F32, `C05_ci_legacy_depth3_refused_witness`.  Not proved: the assembly of
+these two facts through `buildL` into `deserialize (down d) = deserialize d` for depth ≤ 2 (validated per case). -/
+theorem C05_ci_faithful_children (g : Legacy.Gates) (hg : g.variant = true) (full data data' : PyVal) (vuid : Str) (ids : List Str)
+    (hd : data.get? k%"variants" = some (strList ids)) (hd' : data'.get? k%"variants" = none)
+    (hs : SSorted full.keys)
+    (hex : ∀ k ∈ full.keys, Str.startsWith k (vuid ++ ['-']) = true ↔ ∃ i ∈ ids, k = vuid ++ '-' :: i)
+    (hin : ∀ i ∈ ids, vuid ++ '-' :: i ∈ full.keys) :
+    Legacy.kidKeysL g full data' vuid vuid = Legacy.kidKeysL Legacy.Gates.current full data vuid vuid :=
+  Legacy.kidKeys_faithful g hg full data data' vuid ids hd hd' hs hex hin
+
+/-- the hypotheses are satisfiable: the table of `wCI02` in sorted order, `Server` with its two children -/
+example :
+    let keys : List Str := [k%"Client-X", k%"Server", k%"Server-LP", k%"Server-optional"]
+    let cs : List Str := [k%"Server-LP", k%"Server-optional"]
+    (∀ u ∈ keys, cs.contains u = true ↔ ∃ hd, Legacy.legacyHead u = some hd ∧ keys.contains hd = true)
+    ∧ SSorted keys
+    ∧ (∀ k ∈ keys, Str.startsWith k (k%"Server" ++ ['-']) = true ↔ ∃ i ∈ [k%"LP", k%"optional"], k = k%"Server" ++ '-' :: i)
+    ∧ (∀ i ∈ [k%"LP", k%"optional"], k%"Server" ++ '-' :: i ∈ keys) := by
+  refine ⟨?_, by unfold SSorted; decide, ?_, by decide⟩
+  · intro u hu
+    simp only [List.mem_cons, List.not_mem_nil, or_false] at hu
+    rcases hu with rfl | rfl | rfl | rfl <;> decide
+  · intro k hk
+    simp only [List.mem_cons, List.not_mem_nil, or_false] at hk
+    rcases hk with rfl | rfl | rfl | rfl <;> decide
 
 /-- a 0.2 document: no date/respin, `product` section without type/internal, children by UID prefix only, a layered
 product with its own `product` section -/
@@ -327,6 +389,19 @@ theorem C05_ci_upgrade_witness :
        && (x.variants.map fun v => v.kids.map Variant.uid) == [[], [k%"Server-optional", k%"Server-LP"]]
        && (x.variants.flatMap fun v => v.kids.map fun c => c.release.map (·.type)) == [none, some k%"eus"]
        && PyVal.beq (PyVal.canon d1) (PyVal.canon d2) && decide (UidsDistinct x) && decide (x2.norm.variants.length = 2)
+     | .error _ => false) = true := by decide +kernel
+
+/-- what the reader returns is not `Normal` in C01's sense: a 1.0 document with `final: true` and no label loads with
+`final = True` (dropped by the first write), and `norm` is not the identity on it -/
+theorem C05_ci_loaded_not_normal_witness :
+    let doc : PyVal := .dict [(k%"header", .dict [(k%"version", .str k%"1.0")]),
+      (k%"payload", .dict [
+        (k%"compose", .dict [(k%"id", .str k%"F-22-20150522.0"), (k%"type", .str k%"production"), (k%"date", .str k%"20150522"),
+                            (k%"respin", .int 0), (k%"final", .bool true)]),
+        (k%"release", .dict [(k%"name", .str k%"Fedora"), (k%"short", .str k%"F"), (k%"version", .str k%"22")]),
+        (k%"variants", .dict [])])]
+    (match Legacy.deserialize doc with
+     | .ok x => x.compose.final && x.compose.label.isNone && !x.norm.compose.final && decide (¬ Normal x)
      | .error _ => false) = true := by decide +kernel
 
 /-- **F32 witness**: a three-level forest related only by UID prefixes is refused (the grandchild is also taken for a
@@ -391,73 +466,59 @@ theorem C05_ti_loaded_is_normal_partial (fo : FloatOracle) (d : Ini) (t : TreeIn
     ∧ validateClass "treeinfo.Media" (mediaObj t.discnum t.totaldiscs) = .ok () :=
   TI.Legacy.deserialize_sections_valid fo d t h
 
-/-- float oracle that is exact on integer texts (the witnesses below use integer timestamps) -/
-def intOracle : FloatOracle := ⟨Str.pyInt, fun s => .ok s⟩
-def iniSec (n : String) (kv : List (String × String)) : Str × IniSec := (n.toList, kv.map fun p => (p.1.toList, p.2.toList))
+/--
+**idempotent, treeinfo (every header version, 0.0 included).**  A tree loaded from a file of ANY version by the legacy-aware
+reader, once the current writer has written it as `text`: the *current* reader (`TI.loads`, i.e. `IniParse.parse` and
+`TI.deserialize` — no legacy branch: conversion happens exactly once) reads `text` back as the normal form of the loaded
+tree (dictionaries in `SortedDict` order, the tree arch among the platforms; nothing else changes: `TI.norm`), and writing
+that again gives the same bytes.  Corollary of `C04_tree_bytes`; from the load itself follow: the timestamp is an integer,
+top-level variants are filed under their UID (no F8 through a load: the readers call `add(v, variant_id=v.uid)`), the
+checksum table satisfies `ChecksumsOK` (both value syntaxes of the reader give a type and a value free of `:`), image names
+are dictionary keys, no main variant is requested.  Carried, each decidable and each with a real failing region behind it:
+* `hfl`   — the integer timestamp survives `int(float(str n))` (F17: beyond 2^53);
+* `hplat`, `huok`, `hnd` — platform names / UIDs non-empty and comma-free, UIDs distinct (file syntax; a pre-productmd section
+  may carry anything);
+* `htop`  — no top-level variant of type `addon` (F24, `C04_F24_witness`; met by pre-productmd files: known finding);
+* `hF25`  — no platform with images called `<x>-<tree arch>` (F25);
+* `hv`    — the normal form passes the validators the reader runs (`ReadValid`; automatic when the loaded tree is normal);
+* `htext`, `hck`, `himn` — what is written can travel as text (`TextOK`: `C04_textOK_criterion`), names not comment-like.
+-/
+theorem C05_ti_idempotent (sp : Char → Bool) (hsp : IniParse.SpOK sp) (hh : sp '#' = false) (hs : sp ';' = false)
+    (fo : FloatOracle) (d0 : Ini) (t : TreeInfo) (text : Str)
+    (hload : TI.Legacy.deserialize fo d0 = .ok t)
+    (h : dumps t none = .ok text)
+    (htext : ∀ d, serialize t none = .ok d → TextOK sp d)
+    (hck : ∀ c ∈ t.checksums, nc c.1 = true) (himn : ∀ p ∈ t.images, ∀ kv ∈ p.2, nc kv.1 = true)
+    (hfl : ∀ n, t.tree.ts = .int n → fo.intOfFloatStr (Str.intStr n) = .ok n)
+    (hplat : PlatformsOK t.tree) (huok : UidsOK t.variants) (hnd : UidsNodup t.variants)
+    (htop : TopNotAddon t.variants) (hF25 : ∀ p ∈ t.images, platformOf t.tree.arch (pImages ++ p.1) = p.1)
+    (hv : ReadValid (norm t)) :
+    loads sp fo text = .ok (norm t) ∧ (loads sp fo text).bind (dumps · none) = .ok text := by
+  obtain ⟨⟨n, hts⟩, hkeys⟩ := TI.Legacy.deserialize_tree_tops fo d0 t hload
+  obtain ⟨hcs, hin⟩ := TI.Legacy.deserialize_cs_images fo d0 t hload
+  have hk : TopKeyedByUid t.variants := by
+    intro v hv'
+    have hne : v.uid ≠ [] := (huok (none, v) (self_mem_subVs none t.variants v hv')).1
+    have := hkeys v hv'
+    cases hu : v.uid with
+    | nil => exact absurd hu hne
+    | cons c cs => rw [hu] at this; simpa using this
+  exact C04_tree_bytes sp hsp hh hs fo t none text n h htext hck himn hts (hfl n hts) hplat huok hnd htop hcs ⟨hin, hF25⟩ hv hk
+    (fun m hm => by cases hm)
 
-/-- load (any version), write, parse the written text, load, write -/
-def tiUpgradeCycle (d : Ini) : Except Err (TreeInfo × Ini × TreeInfo × Ini) := do
-  let t ← TI.Legacy.deserialize intOracle d
-  let d1 ← TI.serialize t none
-  let d1' ← IniParse.parse Str.isPySpace (IniText.render d1)
-  let t2 ← TI.Legacy.deserialize intOracle d1'
-  let d2 ← TI.serialize t2 none
-  pure (t, d1, t2, d2)
+/-- **faithful and idempotent on a 0.3 witness** (`Proofs/C05WitnessTI.lean`: `wTI03`, evaluated in the kernel): `[product]`
+becomes the release, the child listed under `variants` is found in its `addon-` section, the `src` tree's paths become
+`source_packages` / `source_repository`; the written file is parsed, re-read and written again to the same document -/
+theorem C05_ti_upgrade_0_3_witness : tiUpgrade03Check = true := tiUpgrade03Check_true
 
-def vsum : Variant → List (Str × Str × List (Str × Str) × List Str)
-  | .mk _ _ uid _ type paths kids => [(uid, type, paths, kids.map Variant.uid)]
-
-/-- a 0.3 file: `[product]`, children under `variants`, a `src` tree whose source paths sit in `packages` / `repository` -/
-def wTI03 : Ini :=
-  [iniSec "header" [("version", "0.3")],
-   iniSec "product" [("name", "Fedora"), ("short", "F"), ("version", "21")],
-   iniSec "tree" [("arch", "src"), ("build_timestamp", "123"), ("platforms", "src"), ("variants", "Server")],
-   iniSec "variant-Server" [("id", "Server"), ("uid", "Server"), ("name", "Server"), ("type", "variant"), ("packages", "SRPMS"),
-                            ("repository", "."), ("variants", "Server-HA")],
-   iniSec "addon-Server-HA" [("id", "HA"), ("uid", "Server-HA"), ("name", "HA"), ("type", "addon")]]
-
-/-- **faithful and idempotent on a 0.3 witness**: `[product]` becomes the release, the child listed under `variants` is
-found in its `addon-` section, the `src` tree's paths become `source_packages` / `source_repository`; the written
-file is re-read and written again to the same document -/
-theorem C05_ti_upgrade_0_3_witness :
-    (match tiUpgradeCycle wTI03 with
-     | .ok (t, d1, _, d2) =>
-       t.release.name == "Fedora".toList && t.isLayered == false && t.tree.arch == "src".toList
-       && t.variants.flatMap vsum == [("Server".toList, "variant".toList,
-            [("source_packages".toList, "SRPMS".toList), ("source_repository".toList, ".".toList)], ["Server-HA".toList])]
-       && t.headerVersion == TI.currentVersion && d1 == d2
-     | .error _ => false) = true := by decide +kernel
-
-/-- a pre-productmd file (no header): RHEL 5 Server by its family name, absolute image paths -/
-def wTI00 : Ini :=
-  [iniSec "general" [("family", "Red Hat Enterprise Linux Server"), ("version", "5.8"), ("arch", "i386"), ("timestamp", "5"),
-                     ("packagedir", "Server"), ("totaldiscs", "2")],
-   iniSec "images-i386" [("kernel", "/mnt/os/images/vmlinuz")],
-   iniSec "stage2" [("mainimage", "/images/stage2.img")]]
-
-/-- **the pre-productmd heuristics on a witness, and idempotence** (for 0.0 nothing more general is claimed: the
-mapping is the code): family prefix → name / short `RHEL`, variant `Server` from the family, the RHEL 5 addon table for
+/-- **the pre-productmd heuristics on a witness, and idempotence** (`wTI00`; for 0.0 nothing more general is claimed about the
+mapping: it is the code): family prefix → name / short `RHEL`, variant `Server` from the family, the RHEL 5 addon table for
 i386, repository named after the variant, `/os/` and leading slashes cut from image paths, disc number defaulting to 1 -/
-theorem C05_ti_upgrade_0_0_witness :
-    (match tiUpgradeCycle wTI00 with
-     | .ok (t, d1, _, d2) =>
-       t.release.name == "Red Hat Enterprise Linux".toList && t.release.short == "RHEL".toList && t.release.version == "5.8".toList
-       && t.variants.flatMap vsum == [("Server".toList, "variant".toList,
-            [("packages".toList, "Server".toList), ("repository".toList, "Server".toList)],
-            ["Server-Cluster".toList, "Server-ClusterStorage".toList, "Server-VT".toList])]
-       && (t.variants.flatMap Variant.kids).map Variant.type == ["addon".toList, "addon".toList, "addon".toList]
-       && t.images == [("i386".toList, [("kernel".toList, "images/vmlinuz".toList)])]
-       && t.mainimage == some "images/stage2.img".toList && t.discnum == some 1 && t.totaldiscs == some 2 && d1 == d2
-     | .error _ => false) = true := by decide +kernel
+theorem C05_ti_upgrade_0_0_witness : tiUpgrade00Check = true := tiUpgrade00Check_true
 
 /-- **F12 witness**: the shipped `opensuse` fixture in miniature — a 1.0 file without `[tree]` and without variants —
 loads, and the writer then fails with IndexError (`variants[0]` of an empty list in `General.serialize`) -/
-theorem C05_ti_F12_witness :
-    let d : Ini := [iniSec "header" [("version", "1.0")], iniSec "release" [("name", "openSUSE Leap"), ("version", "15.1")],
-      iniSec "general" [("arch", "x86_64"), ("family", "openSUSE Leap"), ("version", "15.1"), ("platforms", "x86_64,xen")]]
-    (match TI.Legacy.deserialize intOracle d with
-     | .ok t => (match TI.serialize t none with | .error .indexError => true | _ => false) && t.variants.isEmpty
-     | .error _ => false) = true := by decide +kernel
+theorem C05_ti_F12_witness : tiF12Check = true := tiF12Check_true
 
 end TreeInfo
 
